@@ -107,7 +107,7 @@ def mc_module(name, spec_cls, real, latlon, temporal, size, base="Params"):
         if small:
             lenv = {16, 256}
         custom["len_scale"] = [_b(32, 480, True, True)]
-        custom["opt"] = [_b(0, 48, True, True)]
+        custom["opt"] = [_b(8, 48, True, True)]   # keeps every Hurst value other than 1/4, 1/2 out of bounds
         custom["var"] = [_b(32, 96, True, True)]   # tight: a change of the Hurst coefficient alone leaves it
     if micro:
         lenv, anisv, varv, nugv, resv, angv, bad = ({128} if spec_cls != "TPLH" else {256}), {32}, {128}, {64}, ({128} if spec_cls != "TPLH" else {64}), {1}, {0}
@@ -542,7 +542,7 @@ def random_executions(spec_cls, real, optname, fixed, latlon, temporal, rng, n_e
     elif spec_cls == "TPL":
         custom_b["opt"] = (0, 128)
     elif spec_cls == "TPLH":
-        custom_b["opt"] = (0, 48)
+        custom_b["opt"] = (8, 48)
     elif spec_cls == "OptFixed":
         custom_b["opt"] = (ob["lo"] + 32, ob["lo"] + 160)
     dims = [4 if temporal else 3] if latlon else ([2, 3, 4] if temporal else [1, 2, 3, 4])
@@ -617,10 +617,14 @@ def random_executions(spec_cls, real, optname, fixed, latlon, temporal, rng, n_e
                 op.update(arg=a, b={"lo": lo, "hi": hi, "lc": True, "hc": True}, check=rng.random() < 0.7)
                 if not op["check"]:
                     # the unchecked form is only modelled when the current value is inside the new bounds
-                    pr = project(rm)
+                    try:
+                        pr = project(rm)
+                        vnow = _units(float(rm.m.var))
+                    except (OffLattice, KeyError):
+                        break
                     cur = {"var": None, "len_scale": [pr["len"]], "nugget": [pr["nugget"]], "anis": pr["anis"], "opt": [pr["opt"]]}[a]
                     if cur is None:
-                        cur = [_units(float(rm.m.var))]
+                        cur = [vnow]
                     if not all(lo <= c <= hi for c in cur):
                         op["check"] = True
             err = rm.apply(op)
